@@ -204,11 +204,50 @@ func genReaderOp(t *rapid.T, client, seq int) kit.Cmd {
 	}
 }
 
+// genHotOp: one hash, one set and one sorted set written and read by everybody at once: whole-value
+// reads (they walk the value) against writers of the same value.
+func genHotOp(t *rapid.T, client, seq int) kit.Cmd {
+	uniq := fmt.Sprintf("c%d-%d", client, seq)
+	f := gen.Pick(t, "hf", "f", "g", "h", "i", "j", "k")
+	switch gen.Weighted(t, "hot", []int{5, 3, 4, 3, 2, 2, 2, 2, 3, 2, 2, 2, 2}) {
+	case 0:
+		return kit.MkCmd("HSET", "h0", f, uniq)
+	case 1:
+		return kit.MkCmd("HDEL", "h0", f)
+	case 2:
+		return kit.MkCmd("HGETALL", "h0")
+	case 3:
+		return kit.MkCmd("HGET", "h0", f)
+	case 4:
+		return kit.MkCmd("HKEYS", "h0")
+	case 5:
+		return kit.MkCmd("HVALS", "h0")
+	case 6:
+		return kit.MkCmd("HLEN", "h0")
+	case 7:
+		return kit.MkCmd("HEXISTS", "h0", f)
+	case 8:
+		return kit.MkCmd("SADD", "t0", f)
+	case 9:
+		return kit.MkCmd("SREM", "t0", f)
+	case 10:
+		return kit.MkCmd("SMEMBERS", "t0")
+	case 11:
+		return kit.MkCmd("SCARD", "t0")
+	default:
+		return kit.MkCmd("SISMEMBER", "t0", f)
+	}
+}
+
 func genCase(t *rapid.T) Case {
 	c := Case{ShardNum: rapid.SampledFrom([]int{1, 2, 16}).Draw(t, "shards"), Yield: rapid.SampledFrom([]int{0, 0, 1, 2, 5}).Draw(t, "yield")}
 	nc := rapid.IntRange(2, 8).Draw(t, "clients")
 	per := rapid.SampledFrom([]int{5, 12, 30, 60}).Draw(t, "per")
 	readers := rapid.IntRange(0, 4).Draw(t, "readers") == 0
+	hot := !readers && rapid.IntRange(0, 5).Draw(t, "hot") == 0
+	if hot {
+		nc, per = 6, 30
+	}
 	if readers {
 		l, z, h, st := []string{"RPUSH", "l0"}, []string{"ZADD", "z0"}, []string{"HSET", "h0"}, []string{"SADD", "t0"}
 		for i := 0; i < 40; i++ {
@@ -224,6 +263,8 @@ func genCase(t *rapid.T) Case {
 		for j := 0; j < per; j++ {
 			if readers {
 				cl.Ops = append(cl.Ops, genReaderOp(t, i, j))
+			} else if hot {
+				cl.Ops = append(cl.Ops, genHotOp(t, i, j))
 			} else {
 				cl.Ops = append(cl.Ops, genOp(t, i, j))
 			}
@@ -367,6 +408,17 @@ func execInproc(c Case) kit.Outcome {
 	o := kit.Outcome{Labels: []string{fmt.Sprintf("shardnum:%d", c.ShardNum), fmt.Sprintf("yield:%d", c.Yield)}}
 	if len(c.Pre) > 0 {
 		o.Labels = append(o.Labels, "profile:many-readers-of-large-values")
+	}
+	if len(c.Clients) > 0 && len(c.Clients[0].Ops) > 0 && len(c.Pre) == 0 {
+		hot := true
+		for _, op := range c.Clients[0].Ops {
+			if k := string(op[1]); k != "h0" && k != "t0" {
+				hot = false
+			}
+		}
+		if hot {
+			o.Labels = append(o.Labels, "profile:one-hash-and-one-set-written-and-walked-by-all")
+		}
 	}
 	hist, fail, overlapped := runHistory(c, do)
 	if fail != "" {
